@@ -140,7 +140,7 @@ def payload_checksum(data):
     return n
 
 
-def guard_block(rng, cfg, envkey, opts, stored_checksum=None, rnd_pad=False, guard_truncate=None):
+def guard_block(rng, cfg, envkey, opts, stored_checksum=None, rnd_pad=False, guard_truncate=None, guard_plain_mutator=None):
     """Guardrails: 6144-byte masked configuration followed by the 2048-byte masked guard configuration.
     opts: list of (option, type, value bytes).  Returns (bytes, info)."""
     from vf.ref.tlv import S
@@ -155,6 +155,8 @@ def guard_block(rng, cfg, envkey, opts, stored_checksum=None, rnd_pad=False, gua
     masked_beacon = rx1(rxk(padded, envkey), 0x2E)
     g = b"".join(S(o, t, v) for o, t, v in opts) + S(9, 2, struct.pack(">I", stored)) + b"\0\0"
     g = g + rng.randbytes(2048 - len(g))
+    if guard_plain_mutator is not None:
+        g = guard_plain_mutator(g)[:2048].ljust(2048, b"\0")
     masked_guard = rx1(bytes(a ^ b for a, b in zip(g, masked_beacon[::-1][:2048])), 0x8A)
     if guard_truncate is not None:
         masked_guard = masked_guard[:guard_truncate]
